@@ -38,6 +38,8 @@ class Spelling(ast.NodeTransformer):
             return ast.copy_location(ast.BinOp(left=node.args[0], op=UFUNC_BIN[n](), right=node.args[1]), node)
         if n in UFUNC_UN and len(node.args) == 1 and not node.keywords:
             return ast.copy_location(ast.UnaryOp(op=UFUNC_UN[n](), operand=node.args[0]), node)
+        if n == 'transpose' and len(node.args) == 1 and not node.keywords and not isinstance(node.args[0], ast.Starred):
+            return ast.copy_location(ast.Attribute(value=node.args[0], attr='T', ctx=ast.Load()), node)     # reverses all axes, exactly like .T
         if self.methods and isinstance(node.func, ast.Attribute) and node.func.attr in METHODS and _np_name(node.func) is None:
             recv = node.func.value
             if isinstance(recv, ast.Name) and recv.id in ('np', 'numpy', 'math', 'self'):
@@ -64,14 +66,22 @@ def _simple_helper(fn):
     if a.vararg or a.kwarg or a.kwonlyargs or a.posonlyargs:
         return None
     body = [s for s in fn.body if not (isinstance(s, ast.Expr) and isinstance(s.value, ast.Constant))]
-    if not body or not isinstance(body[-1], ast.Return) or body[-1].value is None:
+    if not body:
         return None
-    for s in body[:-1]:
-        if not isinstance(s, (ast.Assign, ast.AugAssign, ast.AnnAssign)):
+    if not isinstance(body[-1], ast.Return) or body[-1].value is None:
+        # a procedure: no return anywhere -> its "value" is None
+        if any(isinstance(n, ast.Return) for s in body for n in ast.walk(s)):
             return None
+        body = body + [ast.Return(value=ast.Constant(value=None))]
+    for s in body[:-1]:
+        if not isinstance(s, (ast.Assign, ast.AugAssign, ast.AnnAssign, ast.If, ast.For, ast.Expr)):
+            return None
+        for n in ast.walk(s):
+            if isinstance(n, (ast.Return, ast.Raise, ast.Break, ast.Continue)) and not isinstance(s, (ast.Assign, ast.AugAssign, ast.AnnAssign)):
+                return None
     for s in body:
         for n in ast.walk(s):
-            if isinstance(n, (ast.Yield, ast.YieldFrom, ast.Lambda, ast.FunctionDef, ast.NamedExpr, ast.Global, ast.Nonlocal)):
+            if isinstance(n, (ast.Yield, ast.YieldFrom, ast.Lambda, ast.FunctionDef, ast.NamedExpr, ast.Global, ast.Nonlocal, ast.Try, ast.With, ast.While)):
                 return None
     if fn.decorator_list:
         return None
